@@ -204,6 +204,8 @@ func main() {
 	bigrd := flag.Int("bigrd", 1, "page-boundary reader suite (rd cases with 64 KiB..200 KB of key+value bytes): 0 none, 1 every size and codec once, 2 full cross product")
 	pgr := flag.Int("pgr", 30, "number of page-buffer sequences with ReadFrom and a digest after every operation (pgr)")
 	cc := flag.Int("cc", 4, "concurrent-producer rounds per GOMAXPROCS value (wc cases over slow peers, wp cases from concurrent goroutines); 0 = none")
+	ww := flag.Int("ww", 1, "kafka.Writer path cases (ww): 0 none, 1 all ordered pairs of nil/empty/non-empty keys and values + 30 longer batches, 2 + 300")
+	fs := flag.Int("fs", 1, "frame sweep (wf + wp cases): record batch headers across 64 KiB page boundaries in Produce requests / Fetch responses: 0 none, 1 quick, 2 also two-page offsets for every alignment")
 	flag.StringVar(&only, "only", "", "print only the cases of this op (wp, wl, wc, rd, pg, pgc)")
 	flag.Parse()
 	r := rand.New(rand.NewSource(*seed))
@@ -216,4 +218,6 @@ func main() {
 	bigReaderCases(r, *bigrd)
 	pageRFCases(r, *pgr)
 	concurrentCases(r, *cc)
+	writerPathCases(r, *ww)
+	frameSweep(r, *fs)
 }
